@@ -668,7 +668,11 @@ def _check_explore_refusals(ctx, f, old):
         for n in walk_shallow(f.node):
             if isinstance(n, ast.ExceptHandler) and util.contains(n, r):
                 h = n
-        src = " ".join(ast.unparse(c).replace(" ", "") for c in conds)
+        src = " ".join(ast.unparse(util.expand_locals(ctx, f, c)).replace(" ", "") if not isinstance(c, ast.Name) else ast.unparse(c) for c in conds)
+        # `unique = set(segs); if len(unique) != len(segs)`: the expansion replaces `segs` by its comprehension as well
+        segdef = [b for b in ctx.E.bindings(f).get(SEG, []) if isinstance(b, ast.AST)]
+        if len(segdef) == 1:
+            src = src.replace(ast.unparse(segdef[0]).replace(" ", ""), SEG)
         if h is not None and "KeyError" in ast.unparse(h.type or ast.Name(id="")):
             kinds["unknown-parent"] = r
         elif "len(set(%s))!=len(%s)" % (SEG, SEG) in src or "len(%s)!=len(set(%s))" % (SEG, SEG) in src:
@@ -713,6 +717,25 @@ def _check_explore_refusals(ctx, f, old):
                 problems.append("outer loop does not run over every sub-segment")
             src = inner[0].iter
             sdef = only(src.id) if isinstance(src, ast.Name) else src
+            # a table of the shorter lengths per segment length, looked up with len(segment):
+            # {k: [l for l in pool if l < k] for k in pool}[len(segment)] is [l for l in pool if l < len(segment)]
+            if isinstance(sdef, ast.Subscript) and isinstance(sdef.value, ast.Name) and not isinstance(sdef.slice, ast.Slice):
+                tdef = only(sdef.value.id)
+                if isinstance(tdef, ast.DictComp) and len(tdef.generators) == 1 and not tdef.generators[0].ifs and isinstance(tdef.generators[0].target, ast.Name) \
+                        and isinstance(tdef.key, ast.Name) and tdef.key.id == tdef.generators[0].target.id:
+                    kname = tdef.key.id
+                    idx = sdef.slice
+                    import copy as _copy
+
+                    class _Sub(ast.NodeTransformer):
+                        def visit_Name(self, n):
+                            return _copy.deepcopy(idx) if n.id == kname and isinstance(n.ctx, ast.Load) else n
+                    pool0 = tdef.generators[0].iter
+                    val = _Sub().visit(_copy.deepcopy(tdef.value))
+                    # the looked-up key is a length of a segment, and the table has a row for every such length
+                    pdef0 = only(pool0.id) if isinstance(pool0, ast.Name) else pool0
+                    if isinstance(pdef0, (ast.SetComp, ast.ListComp)) and ast.unparse(idx).replace(" ", "") == "len(%s)" % segname:
+                        sdef = val
             # [length for length in all_lengths if length < len(segment)]
             okc = (isinstance(sdef, (ast.ListComp, ast.GeneratorExp, ast.SetComp)) and len(sdef.generators) == 1
                    and len(sdef.generators[0].ifs) == 1)
@@ -731,7 +754,14 @@ def _check_explore_refusals(ctx, f, old):
                        and isinstance(pdef.generators[0].iter, ast.Name) and pdef.generators[0].iter.id == SEG)
                 if not okp:
                     problems.append("the pool of lengths `%s` is not {len(s) for every sub-segment}" % (ast.unparse(pdef)[:60] if pdef is not None else "?"))
-    if not (isinstance(intest.comparators[0], ast.Name) and intest.comparators[0].id == SEG):
+    coll = intest.comparators[0]
+    if isinstance(coll, ast.Name) and coll.id != SEG:
+        cdef = only(coll.id)
+        # set(sub_segments) / frozenset(sub_segments) / tuple(..): the same elements
+        if isinstance(cdef, ast.Call) and isinstance(cdef.func, ast.Name) and cdef.func.id in ("set", "frozenset", "tuple", "list") and len(cdef.args) == 1 \
+                and isinstance(cdef.args[0], ast.Name) and cdef.args[0].id == SEG:
+            coll = cdef.args[0]
+    if not (isinstance(coll, ast.Name) and coll.id == SEG):
         problems.append("membership is not tested against the full list of sub-segments")
     # guard that skips the check must be `len(all_lengths) > 1`
     outer_if = [n for n in walk_shallow(f.node) if isinstance(n, ast.If) and util.contains(n, r) and not any(isinstance(x_, ast.For) and util.contains(x_, n) for x_ in fors)]
